@@ -14,6 +14,7 @@ PY = "/venv/bin/python"
 
 
 SEED_ROOT = os.environ.get("SEED_ROOT", "/tmp/seed2")
+SEEDV = os.environ.get("SEEDV", "/tmp/seedv")
 ROUND = {"/tmp/seed": 1, "/tmp/seed2": 2, "/tmp/seed3": 3, "/tmp/seed4": 4, "/tmp/seed5": 5, "/tmp/seed6": 6}.get(SEED_ROOT, 9)
 
 
@@ -31,10 +32,10 @@ def kept_name(ID, x):
 
 def wt(ID):
     """my own verification worktree (never the agent's), kept at /repo's HEAD"""
-    w = f"/tmp/seedv/{ID}"
+    w = f"{SEEDV}/{ID}"
     head = subprocess.run(["git", "-C", "/repo", "rev-parse", "HEAD"], stdout=subprocess.PIPE).stdout.decode().strip()
     if not os.path.isdir(w):
-        os.makedirs("/tmp/seedv", exist_ok=True)
+        os.makedirs(SEEDV, exist_ok=True)
         subprocess.run(["git", "-C", "/repo", "worktree", "add", "--detach", "-q", w, head], check=True)
     else:
         subprocess.run(["git", "-C", w, "checkout", "-q", "--", "."], check=False)
@@ -62,7 +63,7 @@ def apply(ID, x, reverse=False):
 
 
 def env_for(ID):
-    w = f"/tmp/seedv/{ID}"
+    w = f"{SEEDV}/{ID}"
     os.makedirs(f"{w}/tmp", exist_ok=True)
     return {"PYTHONPATH": f"{w}/src", "TMPDIR": f"{w}/tmp"}
 
